@@ -1,10 +1,11 @@
 #!/bin/bash
-# usage: try_seed.sh <ID> <patch> [tier]  -- applies the patch to /repo, runs the check, reverts
+# usage: try_seed.sh <ID> <patch> [tier]  -- applies the patch to the tree in $OOMD_REPO (default /repo), runs the check, reverts
 ID=$1; P=$2; TIER=${3:-quick}
-cd /repo && git status --short | grep -q . && { echo "/repo not clean"; exit 2; }
+REPO=${OOMD_REPO:-/repo}
+cd $REPO && git status --short | grep -q . && { echo "$REPO not clean"; exit 2; }
 git apply --3way "$P" 2>/dev/null || git apply "$P" || patch -p1 < "$P" || { echo "patch does not apply"; git checkout HEAD -- .; exit 2; }
 git status --short
-cd /verif && ./check $ID --tier $TIER 2>&1 | cut -c1-260 | grep -v "^  |" | tail -15
+cd /verif && OOMD_REPO=$REPO ./check $ID --tier $TIER 2>&1 | cut -c1-260 | grep -v "^  |" | tail -15
 rc=${PIPESTATUS[0]}
-git -C /repo checkout HEAD -- . ; git -C /repo status --short
+git -C $REPO checkout HEAD -- . ; git -C $REPO status --short
 echo "check rc=$rc"
